@@ -151,6 +151,29 @@ def run(ctx):
                "only the blob writer creates the checkpoint group (together with its dataset)",
                (f"{makers[0][0].ident} creates the 'checkpoint' group without storing a payload in it: a run interrupted before its first checkpoint leaves a file with an empty checkpoint "
                 "group, which a reader that tests for the group and then opens the dataset cannot load") if makers else "", disc="maker")
+    # the context's defaults fill in what the caller left out -- they do not replace a cadence the caller passed: an assignment `param = defaults[...]` to a
+    # parameter of sample_posterior must sit under a test of that parameter (None / a sentinel), not only under "no checkpoint_path was given"
+    spw = repo.cls("aspire.aspire:Aspire").methods["sample_posterior"]
+    parw = {ch: p_ for p_ in ast.walk(spw.node) for ch in ast.iter_child_nodes(p_)}
+    n_fill = 0
+    for n_ in walk_no_nested(spw.node):
+        if not (isinstance(n_, ast.Assign) and len(n_.targets) == 1 and isinstance(n_.targets[0], ast.Name) and n_.targets[0].id in spw.params
+                and isinstance(n_.value, ast.Subscript) and isinstance(n_.value.value, ast.Name) and "default" in n_.value.value.id):
+            continue
+        pn_ = n_.targets[0].id
+        if pn_ != "checkpoint_every":
+            continue  # the cadence is what C12 speaks about
+        n_fill += 1
+        tests, cur = [], n_
+        while cur in parw:
+            cur = parw[cur]
+            if isinstance(cur, ast.If):
+                tests.append(cur.test)
+        looks = any(isinstance(x, ast.Name) and x.id == pn_ for t_ in tests for x in ast.walk(t_))
+        ctx.decide(looks, "C12.wire", spw.ident, loc_of(spw, n_), f"the context default for `{pn_}` is used only when the caller gave none",
+                   f"`{ast.unparse(n_)[:60]}` replaces the caller's `{pn_}` whenever no checkpoint_path was passed: inside auto_checkpoint(f, every=1) an explicit "
+                   f"sample_posterior(..., {pn_}=3) checkpoints at the context's cadence, not at the requested one", disc=f"override|{pn_}")
+    ctx.count("context_defaults_filled_into_parameters", n_fill)
     from .smcloop import forwarding_rule
     nf = forwarding_rule(ctx, "C12.route", ("checkpoint_callback", "checkpoint_every", "checkpoint_file_path"),
                          "with that sampler the checkpoint file / cadence / callback requested by the caller never reaches the SMC loop, so nothing (or only an in-memory copy) is checkpointed")
